@@ -41,7 +41,7 @@ type Prepared struct {
 	ExpectReach   map[string][]string // job name -> reach ids that must be witnessed
 	Cleanup       func()
 	CostKey       func(fn string) string // stable name of a harness function for cost hints (default: the function path)
-	AllRuns       bool // native replays of assertion failures must fail in every run (byte-level comparisons of two encodings)
+	AllRuns       bool                   // native replays of assertion failures must fail in every run (byte-level comparisons of two encodings)
 }
 
 // Sig identifies a failing site (not the failing input).
@@ -173,21 +173,21 @@ func RunCheck(ctx *Ctx, prepare func(*Ctx) (*Prepared, error), level string) int
 	// ---- aggregate ----
 	var (
 		paths, obligations, byRw, bySolver, incon, forks, rwChecks, boundCuts int
-		instrs                                                    int64
-		pathsByEnd                                                = map[string]int{}
-		inconReasons                                              = map[string]int{}
-		assertIDs                                                 = map[string]int{}
-		encoded                                                   = map[string]bool{}
-		fatal                                                     []string
-		funcErrors                                                []string
-		vios                                                      []*vioRec
-		witnesses                                                 = map[string][]ReplayCase{} // package path -> cases
-		qTotal, qSat, qUnsat, qUnknown, qErr                      int
-		solverTime, solverMax                                     time.Duration
-		inconFuncs                                                []string
-		harnessesRun                                              int
-		loadErrors                                                = map[string][]string{}
-		initWarn                                                  = map[string]bool{}
+		instrs                                                                int64
+		pathsByEnd                                                            = map[string]int{}
+		inconReasons                                                          = map[string]int{}
+		assertIDs                                                             = map[string]int{}
+		encoded                                                               = map[string]bool{}
+		fatal                                                                 []string
+		funcErrors                                                            []string
+		vios                                                                  []*vioRec
+		witnesses                                                             = map[string][]ReplayCase{} // package path -> cases
+		qTotal, qSat, qUnsat, qUnknown, qErr                                  int
+		solverTime, solverMax                                                 time.Duration
+		inconFuncs                                                            []string
+		harnessesRun                                                          int
+		loadErrors                                                            = map[string][]string{}
+		initWarn                                                              = map[string]bool{}
 	)
 	jobByName := map[string]*Job{}
 	for _, j := range jobs {
@@ -588,37 +588,37 @@ func RunCheck(ctx *Ctx, prepare func(*Ctx) (*Prepared, error), level string) int
 	}
 	sort.Strings(warnList)
 	cov := map[string]interface{}{
-		"states":                        paths,
-		"transitions":                   instrs,
-		"traces_validated_against_impl": tracesValidated,
-		"samples":                       samples,
-		"obligations":                   obligations,
-		"discharged":                    byRw + bySolver,
-		"discharged_by_solver":          bySolver,
+		"states":                            paths,
+		"transitions":                       instrs,
+		"traces_validated_against_impl":     tracesValidated,
+		"samples":                           samples,
+		"obligations":                       obligations,
+		"discharged":                        byRw + bySolver,
+		"discharged_by_solver":              bySolver,
 		"discharged_by_validated_rewriting": byRw,
 		"rewrite_lemmas_checked_by_solver":  rwChecks,
-		"inconclusive":                  incon,
-		"inconclusive_reasons":          inconReasons,
-		"paths_by_end":                  pathsByEnd,
-		"forks":                         forks,
-		"paths_cut_at_enumeration_bound": boundCuts,
-		"harnesses_run":                 harnessesRun,
-		"jobs":                          len(jobs),
-		"programs":                      prep.Programs,
-		"functions_encoded":             encList,
-		"functions_encoded_count":       len(encList),
-		"bounds":                        prep.Bounds,
-		"stubs":                         prep.Stubs,
-		"queries":                       map[string]int{"total": qTotal, "sat": qSat, "unsat": qUnsat, "unknown": qUnknown, "errors": qErr},
-		"solver_time_s":                 solverTime.Seconds(),
-		"solver_max_query_s":            solverMax.Seconds(),
-		"solvers":                       solverNames(),
-		"not_analysable":                prep.NotAnalysable,
-		"known_findings_matched":        knownMatched,
-		"assertion_ids":                 idList,
-		"engine_init_warnings":          warnList,
-		"explanation":                   prep.Explanation,
-		"exhaustive":                    false,
+		"inconclusive":                      incon,
+		"inconclusive_reasons":              inconReasons,
+		"paths_by_end":                      pathsByEnd,
+		"forks":                             forks,
+		"paths_cut_at_enumeration_bound":    boundCuts,
+		"harnesses_run":                     harnessesRun,
+		"jobs":                              len(jobs),
+		"programs":                          prep.Programs,
+		"functions_encoded":                 encList,
+		"functions_encoded_count":           len(encList),
+		"bounds":                            prep.Bounds,
+		"stubs":                             prep.Stubs,
+		"queries":                           map[string]int{"total": qTotal, "sat": qSat, "unsat": qUnsat, "unknown": qUnknown, "errors": qErr},
+		"solver_time_s":                     solverTime.Seconds(),
+		"solver_max_query_s":                solverMax.Seconds(),
+		"solvers":                           solverNames(),
+		"not_analysable":                    prep.NotAnalysable,
+		"known_findings_matched":            knownMatched,
+		"assertion_ids":                     idList,
+		"engine_init_warnings":              warnList,
+		"explanation":                       prep.Explanation,
+		"exhaustive":                        false,
 	}
 	nviol := 0
 	if exit == 1 {
@@ -666,20 +666,20 @@ func sigHash(s string) string {
 }
 
 type replayFile struct {
-	Property string          `json:"property"`
-	Tier     string          `json:"tier"`
-	Job      string          `json:"job"`
-	Pkg      string          `json:"pkg"`
-	Harness  string          `json:"harness"`
-	Sig      Sig             `json:"signature"`
-	Site     string          `json:"site"`
-	Stmt     string          `json:"stmt"`
-	Detail   string          `json:"detail"`
-	Script   []uint64        `json:"script"`
-	Notes    []string        `json:"notes"`
-	Native   string          `json:"native_outcome"`
-	Case     ReplayCase      `json:"case"`
-	HowTo    string          `json:"how_to_replay"`
+	Property string     `json:"property"`
+	Tier     string     `json:"tier"`
+	Job      string     `json:"job"`
+	Pkg      string     `json:"pkg"`
+	Harness  string     `json:"harness"`
+	Sig      Sig        `json:"signature"`
+	Site     string     `json:"site"`
+	Stmt     string     `json:"stmt"`
+	Detail   string     `json:"detail"`
+	Script   []uint64   `json:"script"`
+	Notes    []string   `json:"notes"`
+	Native   string     `json:"native_outcome"`
+	Case     ReplayCase `json:"case"`
+	HowTo    string     `json:"how_to_replay"`
 }
 
 func writeReplayDir(dir string, ctx *Ctx, v *vioRec, tg *ReplayTarget) {
